@@ -226,6 +226,19 @@ PROPS = {
         "assumptions": COMMON_ASSUME + ["an over-read that stays inside the same page on the non-flush side is invisible; both sides are alternated and the end-flush side "
                                         "(where vector tails over-read) gets most cases", "lengths above a few MiB are sampled sparsely (thorough tier)"],
     },
+    "C15": {
+        "title": "Hash length accounting stays exact across the 2^29- and 2^32-byte totals",
+        "variant": "default",
+        "quick": {"cases": 64, "opts": ["p32=10"], "budget_s": 900},
+        "thorough": {"cases": 640, "opts": ["p32=50"], "budget_s": 3000},
+        "rule": "rapidcheck cases over algorithm x family (each worker owns the families i = worker mod 16; all 28 ctx families + legacy + isal_): 1..4 contexts of one "
+                "manager, each fed a periodic stream (1 MiB block mapped back to back via memfd, so single segments up to 2^32-1 bytes exist) whose total is "
+                "2^29, 2^32 or 2^32+2^29 plus a residue from {0, 1, B-9, B-8, B-1, B, B+1, 17, 3B+5} (+ optional 0..5000); segmentation = large segments (< 2^32 each) up "
+                "to shortly before the threshold, then 1..5 small segments that walk across it at odd residues. Oracle: digest == reference digest of the stream at that "
+                "total (one reference pass per algorithm with 64 MiB snapshots), total_length == sum of the segment lengths, status COMPLETE. Non-trivial = every job "
+                "(total >= 2^29); distinct = hash of the case JSON.",
+        "assumptions": COMMON_ASSUME + ["the quick tier sends about one job in eight across 2^32 (each costs ~4.3 GiB of reference hashing); the thorough tier one in two"],
+    },
 }
 
 # properties not (yet) claimed; kept current as checks are added
